@@ -125,7 +125,28 @@ CHECKS = {
    note=TB + 'Python\'s re.search for a newline and str slicing are modelled; the claim that the failure index never lies '
         'beyond the furthest failure is carried by the refinement theorem of C01 (failure position), not by this check.',
    technique='Coq proof over a model regenerated from source + tie lemmas; differential sweep model vs runtime',
-   ref='DESIGN.md §6 C09'), 'C14': dict(
+   ref='DESIGN.md §6 C09'), 'C11': dict(
+   category='translation_validation',
+   text='Differential validation of the module-production variants: each description (core shapes, scoping scenarios, every template '
+        'call site of C06, an operator table, classes with ignore) is compiled unnamed, named, with include_source on/off and a second '
+        'time, and the emitted _source_code is executed on its own in `python -I -S` with neither site-packages nor the repository on '
+        'sys.path (self-containedness); all variants must return equal values (with spans) or raise the same error class at the '
+        'same position on every input. In the Coq model a `grammar <name>` header has no semantic effect at all (it only threads '
+        'one more parameter through every generated signature and call), which is what the named-vs-unnamed runs confirm for the code.',
+   note=TB + 'no theorem: that CPython executes the emitted text the same way in a fresh module, and CodeBuilder.compile, are outside any model I could honestly write (DESIGN.md §9).',
+   technique='differential execution of 5 in-process variants + standalone execution of the emitted source in an isolated interpreter',
+   ref='DESIGN.md §6 C11'),
+ 'C12': dict(
+   category='translation_validation',
+   text='Bootstrap generations compared on every run in scratch copies: generation 1 (Grammar(grammar.txt) by the current code running on '
+        'the shipped parser) accepts grammar.txt and equals the shipped sourcer/parser.py textually (header line aside); generation 2 '
+        '(the same with generation 1 installed) equals generation 1 byte for byte. Because generation 0 and 1 are the same program text, '
+        'their agreement on ALL grammar descriptions follows from that identity; a corpus run (every grammar string of the repository\'s '
+        'tests/docs/examples, generated descriptions, ~1500 corrupted variants: tree repr or error class and position) cross-checks it.',
+   note=TB + 'no theorem about generate_parser.py; the meaning of the meta-grammar itself is covered by the C01-C06 theorems applied to grammar.txt like to any grammar.',
+   technique='textual fixed-point check of bootstrap generations 0/1/2 + differential corpus run',
+   ref='DESIGN.md §6 C12'),
+ 'C14': dict(
    text='Coq theorems on a model of ParsedObject.__eq__/__hash__/_hash over nested values (scalars with Python\'s == quotiented, '
         'lists, tuples, objects): C14_eq_iff (equal iff same class and pairwise equal fields), C14_eq_refl/sym/trans (equivalence '
         'relation), C14_eq_implies_hash (equal objects have equal hashes, also with unhashable list members and tuples containing '
